@@ -37,7 +37,16 @@ class Knobs:
         self.p_async = 0.4
         self.domains = False
         self.avoid_known = True
+        # focus of the case: None (general) | "observers" (observer positions across nesting, no fallible middleware graphs)
+        # | "errors" (error handlers registered at several nesting levels, unrelated handlers in between)
+        self.flavour = None
         self.__dict__.update(kw)
+        if self.flavour == "observers":
+            self.n_obs = (3, 6)
+            self.p_fallible_comp = 0.6
+        elif self.flavour == "errors":
+            self.p_fallible_comp = 0.6
+            self.p_fallible_ctor = 0.4
 
 
 def rint(rng, lohi):
@@ -183,13 +192,21 @@ def gen_inclass(rng, knobs=None):
     # ---- blueprint tree
     counters = {"h": 0, "m": 0, "o": 0, "fb": 0, "label": 0, "ovr": 0}
 
+    local_errors = []   # error types that only components of the blueprint subtree being built may return
+    deferred_eh = []    # (items list of the blueprint that will register it, error handler id)
+
+    def pick_error():
+        if local_errors and rng.random() < 0.6:
+            return rng.choice(local_errors)
+        return rng.choice(spec["errors"])
+
     def new_handler(avail_types):
         hid = "H%d" % counters["h"]
         counters["h"] += 1
         ins = pick_inputs("handler", list(avail_types), rng.choice([0, 1, 2, 2, 3, 4]))
         h = {"ins": ins}
         if rng.random() < kn.p_fallible_comp:
-            h["fallible"] = rng.choice(spec["errors"])
+            h["fallible"] = pick_error()
         if rng.random() < kn.p_async:
             h["async"] = True
         spec["handlers"][hid] = h
@@ -199,10 +216,10 @@ def gen_inclass(rng, knobs=None):
         kind = kind or rng.choice(["pre", "post", "wrap"])
         mid = "%s%d" % ({"pre": "PRE", "post": "POST", "wrap": "W"}[kind], counters["m"])
         counters["m"] += 1
-        ins = pick_inputs("mw", list(avail_types), rng.choice([0, 1, 1, 2, 3]))
+        ins = pick_inputs("mw", list(avail_types), rng.choice([0, 1, 1, 2, 3]), allow_fallible=kn.flavour != "observers")
         m = {"kind": kind, "ins": ins}
-        if rng.random() < kn.p_fallible_comp:
-            m["fallible"] = rng.choice(spec["errors"])
+        if rng.random() < kn.p_fallible_comp and kn.flavour != "observers":
+            m["fallible"] = pick_error()
         if kind != "wrap" and rng.random() < kn.p_async:
             m["async"] = True
         spec["mws"][mid] = m
@@ -222,7 +239,7 @@ def gen_inclass(rng, knobs=None):
         ins = pick_inputs("handler", [t for t in avail_types], rng.choice([0, 0, 1, 2]))
         spec["fallbacks"][fid] = {"ins": ins, "status": 440 + counters["fb"]}
         if rng.random() < 0.15:
-            spec["fallbacks"][fid]["fallible"] = rng.choice(spec["errors"])
+            spec["fallbacks"][fid]["fallible"] = pick_error()
         return fid
 
     def route_group(n):
@@ -260,10 +277,32 @@ def gen_inclass(rng, knobs=None):
     n_mws_target = rint(rng, kn.n_mws)
     n_obs_target = rint(rng, kn.n_obs)
 
-    def build_bp(depth, avail_types, budget, own_prefix=False, under_prefix=False):
+    def build_bp(depth, avail_types, budget, own_prefix=False, under_prefix=False, bp_stack=()):
         """budget: dict with remaining handlers/mws/obs to place in this subtree."""
         items = []
+        bp_stack = bp_stack + (items,)
         local_types = list(avail_types)
+        pushed_local = None
+        if depth > 0 and kn.flavour == "errors" and rng.random() < 0.7:
+            # a handler for an error type nobody in this subtree returns: the lookup must walk past it
+            un = "EU%d" % counters["label"]
+            counters["label"] += 1
+            spec["errors_local"] = spec.get("errors_local", []) + [un]
+            spec["ehs"]["EH_%s" % un] = {"err": un, "ins": [], "status": 560 + len(spec["ehs"])}
+            deferred_eh.append((items, "EH_%s" % un))
+        if depth > 0 and rng.random() < (0.9 if kn.flavour == "errors" else 0.55):
+            # an error type local to this subtree; its handler is registered here or in any enclosing blueprint
+            # (nearest-enclosing lookup with unrelated handlers in between is what the lookup has to get right)
+            pushed_local = "EL%d" % counters["label"]
+            counters["label"] += 1
+            spec["errors_local"] = spec.get("errors_local", []) + [pushed_local]
+            local_errors.append(pushed_local)
+            if rng.random() < 0.8:
+                ehid = "EH_%s" % pushed_local
+                cands = [t for t in names if infallible[t] and spec["types"][t]["disc"] != "moved"]
+                ins = [(t, "ref") for t in rng.sample(cands, min(len(cands), rng.choice([0, 0, 1])))]
+                spec["ehs"][ehid] = {"err": pushed_local, "ins": ins, "status": 530 + len(spec["ehs"])}
+                deferred_eh.append((rng.choice(bp_stack), ehid))
         # constructor overrides for request-scoped / transient types (nested blueprints only)
         if depth > 0:
             for t in rng.sample(names, min(len(names), rng.choice([0, 0, 1, 2]))):
@@ -328,7 +367,7 @@ def gen_inclass(rng, knobs=None):
                     counters["label"] += 1
                     if rng.random() < 0.2:
                         opts["prefix"] += "/{np%d}" % counters["label"]
-                child = build_bp(depth + 1, local_types, it[2], own_prefix=bool(opts.get("prefix")), under_prefix=under_prefix or bool(opts.get("prefix")))
+                child = build_bp(depth + 1, local_types, it[2], own_prefix=bool(opts.get("prefix")), under_prefix=under_prefix or bool(opts.get("prefix")), bp_stack=bp_stack)
                 if kn.avoid_known and opts.get("prefix", "").endswith("}") and any(x[0] == "fallback" for x in child["items"]):
                     # known finding (router.rs assign_fallbacks): a prefix ending in a parameter + a fallback in the
                     # nested blueprint panics; exercised by a dedicated regression case instead
@@ -338,6 +377,8 @@ def gen_inclass(rng, knobs=None):
                 items.append(it)
         # documented rule ("Routing logic can't be ambiguous"): a fallback registered below a path prefix claims every
         # unmatched path under that prefix, so it may only sit in the blueprint that introduces the prefix
+        if pushed_local is not None:
+            local_errors.remove(pushed_local)
         fallback_allowed = depth == 0 or own_prefix or not under_prefix
         if fallback_allowed and rng.random() < (0.5 if depth == 0 else 0.4):
             items.insert(rng.randint(0, len(items)), ["fallback", new_fb([t for t in local_types if spec["types"][t]["disc"] != "moved"])])
@@ -346,7 +387,7 @@ def gen_inclass(rng, knobs=None):
     def split_budget(depth, h, m, o):
         children = []
         if depth < kn.max_depth and h >= 2:
-            nchild = rng.choice([0, 1, 1, 2])
+            nchild = rng.choice([0, 1, 1, 2]) if kn.flavour is None else rng.choice([1, 2, 2])
             for _ in range(nchild):
                 ch = rng.randint(1, max(1, h // 2))
                 cm = rng.randint(0, m // 2)
@@ -363,16 +404,23 @@ def gen_inclass(rng, knobs=None):
     tree = build_bp(0, names, budget)
     # root registrations: primary constructors + error handlers, shuffled in front (constructors are position independent)
     head = [["ctor", "C%d" % i] for i in range(n_types)]
+    deferred_ids = set(e for (_, e) in deferred_eh)
     for ehid in spec["ehs"]:
-        head.append(["eh", ehid])
+        if ehid not in deferred_ids:
+            head.append(["eh", ehid])
     rng.shuffle(head)
     # a few of them go to random positions of the root blueprint instead
     k = rng.randint(0, min(3, len(head)))
     moved = [head.pop() for _ in range(k)]
-    items = head + tree["items"]
+    # (in place: deferred error-handler registrations refer to this very list object)
+    items = tree["items"]
+    items[0:0] = head
     for it in moved:
         items.insert(rng.randint(0, len(items)), it)
     spec["bp"] = {"items": items}
+    for (target_items, ehid) in deferred_eh:
+        target_items.insert(rng.randint(0, len(target_items)), ["eh", ehid])
+    spec["errors"] = spec["errors"] + spec.pop("errors_local", [])
     _attach_some_error_handlers(rng, spec)
     if kn.avoid_known:
         repair_known(spec)
@@ -428,6 +476,7 @@ def repair_known(spec):
                         if len(users) >= 2:
                             child["items"].remove(cit)
                             del spec["ctors"][cit[1]]
+                            m.__init__(spec)
                 walk(child, child_scope, mws_here)
     walk(spec["bp"], (), [])
 
